@@ -788,6 +788,51 @@ theorem latePayload_txs (a : Adm) (s : C06.St) (ref p : Nat) : (C06.latePayload 
 
 
 
+/-- conversely: C07's `DagOK` on a view is C06's chain invariant on the list -/
+theorem chainOK_of_dagOK_view (w : Wire) (env : C06.Env) : ∀ (l : List C06.Tx), DagOK (viewL w env l) → C06.ChainOK env l := by
+  intro l
+  induction l with
+  | nil => intro _; trivial
+  | cons t rest ih =>
+    intro h
+    have h' : DagOK (viewTx w env t :: viewL w env rest) := h
+    cases h' with
+    | cons _ _ hrest hsig hnew hprev hclk hroot =>
+      refine ⟨ih hrest, ?_, ?_, ?_, ?_⟩
+      · rw [viewTx_ref, present_viewL] at hnew
+        simpa using hnew
+      · exact (verifyPrevs_iff w env rest t).mpr ⟨hprev, hclk⟩
+      · simpa using hsig
+      · intro hp
+        apply C06.hasRoot_false_iff.mpr
+        intro u hu
+        exact hroot hp (viewTx w env u) (List.mem_map.mpr ⟨u, hu, rfl⟩)
+
+theorem preimage_of_view (w : Wire) (env : C06.Env) (U6 : List C06.Tx) : ∀ (d : List Proto.Tx),
+    (∀ t ∈ d, t ∈ U6.map (viewTx w env)) → ∃ l, d = viewL w env l ∧ ∀ u ∈ l, u ∈ U6 := by
+  intro d
+  induction d with
+  | nil => intro _; exact ⟨[], rfl, fun _ h => (by cases h)⟩
+  | cons t rest ih =>
+    intro h
+    obtain ⟨l, hl, hu⟩ := ih (fun x hx => h x (List.mem_cons_of_mem _ hx))
+    obtain ⟨u, hu6, rfl⟩ := List.mem_map.mp (h t List.mem_cons_self)
+    refine ⟨u :: l, by rw [hl]; rfl, ?_⟩
+    intro x hx
+    rcases List.mem_cons.mp hx with rfl | hx
+    · exact hu6
+    · exact hu x hx
+
+
+theorem small_xorAll : ∀ (l : List C06.Tx), (∀ t ∈ l, Small t.ref) → Small (C06.xorAll l) := by
+  intro l
+  induction l with
+  | nil => intro _; show (0 : Nat) < 2 ^ 256; exact Nat.two_pow_pos 256
+  | cons t r ih =>
+    intro h
+    exact Nat.xor_lt_two_pow (ih (fun x hx => h x (List.mem_cons_of_mem _ hx))) (h t List.mem_cons_self)
+
+
 end ProtoView
 
 
